@@ -308,4 +308,20 @@ theorem C09_constrain_is_source (v lo hi : Int) :
   · intro hle
     by_cases h1 : v < lo <;> by_cases h2 : v > hi <;> simp [h1, h2] <;> omega
 
+/-- **Selections are dropped on reload** (and so are exclusions); the query, its cursor and the
+    position of the list cursor are what they were. Query changes, by contrast, leave the selection
+    alone (`C09_query_edit_keeps_selection`). -/
+theorem C09_reload_drops_selection (op : Opts) (s : TS) (h : s.outcome = none) (hin : s.inputless = false) :
+    (actStep op s .reload).selected = [] ∧ (actStep op s .reload).excluded = [] ∧
+    (actStep op s .reload).input = s.input ∧ (actStep op s .reload).cx = s.cx ∧ (actStep op s .reload).cy = s.cy := by
+  unfold actStep hideEdits
+  simp [h, act, hin]
+
+/-- … while an edit of the query leaves the selection as it is. -/
+theorem C09_query_edit_keeps_selection (op : Opts) (s : TS) (q : Str) (h : s.outcome = none) :
+    (actStep op s (.changeQuery q)).selected = s.selected ∧ (actStep op s (.put q)).selected = s.selected := by
+  unfold actStep hideEdits
+  simp only [h, Option.isSome_none, Bool.false_eq_true, if_false]
+  constructor <;> (simp only [act]; by_cases hi : s.inputless = true <;> simp [hi])
+
 end Fzf.Props.C09
